@@ -4,7 +4,7 @@
 
 Domain: KEYWORD_GRAMMARS (one or more `@@keyword` directives with bare words and quoted strings; `@name` rules used
 in choices, closures, joins, positive and negative lookaheads, behind an undecorated twin alternative, two `@name`
-rules tried at one position, an upper-case `@name` rule, keywords declared in upper case) x ALL sequences of up to
+rules tried at one position, an upper-case `@name` rule, keywords declared in upper case, keywords that differ only in case) x ALL sequences of up to
 3 words over a vocabulary of keywords, keyword prefixes / suffixes and case variants (+ `=`) x the ways ignorecase can
 be given: off, directive, compile-time setting, PARSE-TIME setting, directive on + parse-time off.
 
@@ -82,6 +82,8 @@ KEYWORD_GRAMMARS = (
      ('end-if', 'class', 'if'), "@@keyword :: 'end-if' \"class\"\n@@keyword :: if",
      ('end-if', 'END-IF', 'end', 'if', 'class', 'Class', 'classes', 'end-i', 'x')),
     ('upper-case-keywords', (('start', seq(('closure', C('name')), ('eof',))), NAME), ('IF', 'End'), None, _V),
+    # spellings that differ only in case are separate keywords whenever case matters for the parse at hand
+    ('case-variant-keywords', (('start', seq(('closure', C('name')), ('eof',))), NAME), ('If', 'if', 'End'), None, _V),
     ('name-or-token', (('start', seq(('closure', ('group', ch(('named', 'n', C('name')), ('named', 'k', T('if')), ('named', 'k', T('end'))))),
                                      ('eof',))), NAME), ('if', 'end'), '@@keyword :: if\n@@keyword :: end', _V),
 )
